@@ -203,8 +203,10 @@ class Prop(fw.PropBase):
         'of a case; real descriptor exhaustion is exercised only in the rlimit cases (RLIMIT_NOFILE lowered)',
         'the model is the REPAIRED retry path (fixes/C19-D27.patch); Model fixed:=false is the code as found and is '
         'proved to fail (C19_unrepaired_refuted)',
-        'bamSplitByTag.py does not use HandleLimiter (it bounds handles by multi-pass splitting with pysam); it is '
-        'not covered by this check',
+        'bamSplitByTag.py does not use HandleLimiter: it bounds the open writers by splitting in several passes. Modelled: '
+        'split_bam_by_tag with head=None and the loop of the __main__ block (located in the AST and executed by the '
+        'harness); outside the model: pysam BAM reading/writing, get_valid_filename (the model works on the sanitised '
+        'values the real function returns), indexing of the outputs (multiprocessing.Pool replaced by a serial stand-in)',
     ]
     ASSUMPTIONS = [
         'an open() succeeds whenever no other handle of the writer is open (otherwise the call raises - '
@@ -214,6 +216,8 @@ class Prop(fw.PropBase):
         'method is 0 (plain) or 1 (gzip) and constant per path; method=None opens in text mode and then writes bytes '
         '(TypeError) - not used by the package',
         'one writer per path and per process (no concurrent writers to the same files)',
+        'bamSplitByTag: max_handles >= 1 (with max_handles <= 0 and a tagged read the loop never ends - '
+        'C19_bamsplit_needs_a_handle) and -head not given',
     ]
 
     # ---------------------------------------------------------------- generators
@@ -556,3 +560,29 @@ class Prop(fw.PropBase):
                                                         % (c['max_handles'], c['reads'][:40], text),
                                    'input': c, 'impl': {k: r.get(k) for k in ('status', 'passes', 'max_open', 'done', 'files')},
                                    'expected': {'files': bam_expected(r) if not r.get('error') else None}})
+
+    # ---------------------------------------------------------------- replay
+    def replay(self, data):
+        """re-run the recorded failing input on the implementation of the current tree and re-evaluate the specification"""
+        import json
+        w = data.get('witness') or {}
+        inp = w.get('input')
+        print('recorded: %s' % w.get('what', data.get('no_longer_checks')))
+        if not isinstance(inp, dict):
+            return self.run()
+        if 'reads' in inp:
+            r = fw.run_impl('impl_c19.py', {'bamsplit': [inp]})['bamsplit'][0]
+            vs = bam_violations(inp, r)
+        elif 'pairs' in inp:
+            r = fw.run_impl('impl_c19.py', {'fastq': [inp]})['fastq'][0]
+            vs = [('harness-error', r['error'])] if r.get('error') else spec_violations(fastq_as_case(inp, r), r)
+        else:
+            r = fw.run_impl('impl_c19.py', {'cases': [inp]})['cases'][0]
+            vs = spec_violations(inp, r)
+        print('implementation (%s) now: %s' % (fw.REPO, json.dumps({k: r.get(k) for k in ('k', 'status', 'files', 'trace', 'leaked',
+                                                                                         'passes', 'done', 'max_open')})[:1500]))
+        for k, t in vs:
+            print('VIOLATION property=C19 %s: %s' % (k, t))
+        if not vs:
+            print('C19 replay: the recorded input no longer violates the specification')
+        return 1 if vs else 0
